@@ -316,7 +316,8 @@ void ts_subtree_compress(
       grandchild.data.is_inline ||
       grandchild.ptr->child_count < 2 ||
       grandchild.ptr->ref_count > 1 ||
-      grandchild.ptr->symbol != symbol
+      grandchild.ptr->symbol != symbol ||
+      grandchild.ptr->repeat_depth == 0
     ) break;
 
     ts_subtree_children(tree)[0] = ts_subtree_from_mut(grandchild);
